@@ -164,6 +164,10 @@ def blockOK : KV → Prop
   | KV.block n _ => (foldStr fold n == kProxiesFolded) = false
   | KV.leaf .. => False
 
+instance : (b : KV) → Decidable (blockOK fold b)
+  | KV.block _ _ => by unfold blockOK; infer_instance
+  | KV.leaf _ _ => isFalse (fun h => h)
+
 theorem pl_blocks (bs : List KV) (hb : ∀ b ∈ bs, blockOK fold b) (f : Nat) (hf : szl bs ≤ f + 2 * bs.length)
     (m : Vmt) (rest : List Tk) (ok : Bool) :
     paramLoop fold (f + 2 * bs.length) m ⟨toksBlocks bs ++ rest, ok⟩
